@@ -230,6 +230,68 @@ func rewriteHello(msg []byte, op peerOp) (out []byte, same bool) {
 	return out, string(out) == string(msg)
 }
 
+// rewriteHelloExt replaces (or adds) one extension of a ClientHello / ServerHello: type op.V, data of the shape op.How.
+// All outer length fields stay consistent; what varies is the extension's own content (no data, an empty list, a list
+// with one empty item, a list length that overruns / underruns the data, all-ones).
+func rewriteHelloExt(msg []byte, op peerOp) (out []byte, same bool) {
+	b := msg[4:]
+	if len(b) < 35 {
+		return msg, true
+	}
+	p := 34
+	p += 1 + int(b[p])
+	if msg[0] == 1 {
+		p += 2 + (int(b[p])<<8 | int(b[p+1]))
+		p += 1 + int(b[p])
+	} else {
+		p += 3
+	}
+	if p > len(b) {
+		return msg, true
+	}
+	head, rest := b[:p], b[p:]
+	var exts []byte
+	if len(rest) >= 2 {
+		e := rest[2:]
+		for len(e) >= 4 {
+			l := int(e[2])<<8 | int(e[3])
+			if len(e) < 4+l {
+				break
+			}
+			if int(e[0])<<8|int(e[1]) != op.V {
+				exts = append(exts, e[:4+l]...)
+			}
+			e = e[4+l:]
+		}
+	}
+	var data []byte
+	switch op.How {
+	case "nodata":
+	case "list0_8":
+		data = []byte{0}
+	case "list0_16":
+		data = []byte{0, 0}
+	case "item0":
+		data = []byte{0, 1, 0}
+	case "item0_16":
+		data = []byte{0, 3, 0, 0, 0}
+	case "over":
+		data = []byte{0, 9, 0}
+	case "under":
+		data = []byte{0, 1, 1, 65, 1, 66}
+	case "ones":
+		data = []byte{0xff, 0xff, 0xff}
+	case "twice": // the extension twice, each with a well-formed one-item list
+		exts = append(exts, byte(op.V>>8), byte(op.V), 0, 4, 0, 2, 1, 65)
+		data = []byte{0, 2, 1, 66}
+	}
+	exts = append(append(exts, byte(op.V>>8), byte(op.V), byte(len(data)>>8), byte(len(data))), data...)
+	nb := append(append([]byte(nil), head...), byte(len(exts)>>8), byte(len(exts)))
+	nb = append(nb, exts...)
+	out = hsMsg(msg[0], nb)
+	return out, string(out) == string(msg)
+}
+
 func frame(hdr [5]byte, typ byte, payload []byte) *record {
 	r := &record{hdr: hdr, body: append([]byte(nil), payload...)}
 	r.hdr[0] = typ
@@ -426,6 +488,12 @@ func (f *msgFilter) onMessage(msg []byte) []*record {
 		return r
 	case "chvers", "chsuites", "chcomp":
 		m, same := rewriteHello(msg, f.op)
+		if same {
+			f.identity = true
+		}
+		return one(m)
+	case "helloext":
+		m, same := rewriteHelloExt(msg, f.op)
 		if same {
 			f.identity = true
 		}
